@@ -184,6 +184,9 @@ func cmdCheck(args []string) int {
 		n := 0
 		clauseSeen := map[string]bool{}
 		for _, o := range r.Obls {
+			if os.Getenv("GOVC_DEBUG_LOOPS") != "" && strings.Contains(o.Kind, "inv-") {
+				fmt.Fprintf(os.Stderr, "obl %s props=%v has=%v\n", o.Name, o.Props, hasProp(o.Props, *prop))
+			}
 			if hasProp(o.Props, *prop) {
 				obls = append(obls, o)
 				n++
@@ -390,6 +393,17 @@ func cmdCheck(args []string) int {
 		assumptions = append(assumptions, n)
 	}
 	assumptions = append(assumptions, trusted...)
+	{
+		seen := map[string]bool{}
+		var uniq []string
+		for _, a := range assumptions {
+			if !seen[a] {
+				seen[a] = true
+				uniq = append(uniq, a)
+			}
+		}
+		assumptions = uniq
+	}
 	var tb []string
 	for _, k := range used {
 		if s := p.con.Funcs[k]; s != nil && s.Kind != "func" {
